@@ -83,7 +83,7 @@ Proof. exact converters_context_l. Qed.
 Print Assumptions converters_context_pass.
 
 (* 2. One stable kind.  For every base condition c of the domain (every named value, errno and text the tables
-      mention, and an unrelated error) and EVERY stack w of frames (*PathError/*LinkError/*SyscallError, fmt.Errorf %w,
+      mention, and an unrelated error) and EVERY stack w of frames (os.PathError, LinkError, SyscallError, fmt.Errorf %w,
       errors.Join with an unrelated error; any depth; frame texts that do not themselves spell one of the strings the
       text predicates look for): the converter gives w[c] the same kinds as c (or nil for both) — independent of the
       wrapping —, that is at most one kind, and converting the result again does not change its kinds (idempotent at
@@ -147,8 +147,8 @@ Proof. vm_compute. repeat split; auto 40. Qed.
 Example unfixed_nested_reason_refuted :
   exists k m1 m2, (k < nkinds)%nat /\
     let e := new (Some (new (Some (Sent k)) m1)) m2 in
-    reason_of_text (dres_text (deserialise (serialise_gen false e))) <> reason_part (skipn (length (ktext k)) (text e))
-    /\ reason_of_text (dres_text (deserialise (serialise_gen true e))) = reason_part (skipn (length (ktext k)) (text e)).
+    reason_of_text (dres_text (deserialise (serialise_gen false e))) <> reason_part (skipn (List.length (ktext k)) (text e))
+    /\ reason_of_text (dres_text (deserialise (serialise_gen true e))) = reason_part (skipn (List.length (ktext k)) (text e)).
 Proof. exact unfixed_nested_reason_refuted_l. Qed.
 
 Example given_example :
